@@ -108,15 +108,24 @@ def _special(item):
             else:
                 w.add(top(), name="inner")
             top = w
-        if entry == "elaborate":
-            h.elaborate(top)
-        elif entry == "to_proto":
-            h.to_proto(top)
-        else:
-            h.netlist(top, io.StringIO(), fmt="spice")
-        return "returned"
+        def call():
+            if entry == "elaborate":
+                h.elaborate(top)
+            elif entry == "to_proto":
+                h.to_proto(top)
+            else:
+                h.netlist(top, io.StringIO(), fmt="spice")
+
     except Exception as e:
-        return "raised"
+        return "harness: " + short_exc(e)
+    outcomes = []
+    for attempt in range(3):  # the same call again must not fare better
+        try:
+            call()
+            outcomes.append("returned")
+        except Exception:
+            outcomes.append("raised")
+    return "raised" if outcomes == ["raised"] * 3 else "returned on attempt " + str(outcomes.index("returned") + 1)
 
 
 def run(ctx):
@@ -149,8 +158,8 @@ def run(ctx):
         ctx.count(states=1, transitions=2, traces_validated_against_impl=1)
         ctx.fam("special:" + sp[0], scenarios=1)
         ctx.outcome(sp[0] + ":" + r)
-        if r == "returned" and not (sp[0].startswith("clash") and sp[3] == "elaborate") and not (sp[0] == "anon" and False):
-            ctx.violation(dict(fault=sp[0], reason=sp[0], family="special", entries=sp[3]), dict(special=list(sp)), f"{sp[3]} returned for {sp[0]} (n={sp[1]}, depth={sp[2]})")
+        if r != "raised" and not (sp[0].startswith("clash") and sp[3] == "elaborate"):
+            ctx.violation(dict(fault=sp[0], reason=sp[0], family="special", entries=sp[3]), dict(special=list(sp)), f"{sp[3]} {r} for {sp[0]} (n={sp[1]}, depth={sp[2]})")
     if items:
         fam, d = importlib.import_module(f"hv.families.{items[0][0]}").design(items[0][1])
         ms = mutate.classified(d)
@@ -169,4 +178,4 @@ def replay(body):
         s = c["special"]
         r = {s[3]: _special(tuple(s))}
     print("replay:", r)
-    return 1 if any(v == "returned" for v in r.values()) else 0
+    return 1 if any(str(v).startswith("returned") for v in r.values()) else 0
